@@ -1253,6 +1253,37 @@ fn directed(t: &mut Trace, rng: &mut Rng) {
     s.remove_issuer(t, 0, 5);
     s.verify_op(t, 11);
 
+    // (3b') topic lists naming a topic twice (adjacent and apart) must be refused by add_trusted_issuer and
+    // update_issuer_claim_topics: an issuer linked twice under a topic survives its own removal (seed C15-r11-2)
+    for dup in [[1u32, 1, 1], [2, 1, 1], [1, 2, 1]] {
+        t.seq(&format!("directed duplicate topic list {}", join(&dup)));
+        let mut s = Sim::new();
+        setup_basic(&mut s, t);
+        s.add_topic(t, 0, 1);
+        s.add_topic(t, 0, 2);
+        s.add_issuer(t, 0, 4, &dup[1..]); // [1,1] / [1,1] / [2,1]
+        s.add_issuer(t, 0, 4, &dup); // refused either way
+        s.remove_topic(t, 0, 2); // only topic 1 stays required
+        s.update_issuer(t, 0, 4, &[1]);
+        s.allow_key(t, 4, 1, ED25519, 0, 1);
+        let a1 = s.good_claim(4, 8, 1, 1, TS0 + 5000, b"d1", rng);
+        s.add_claim(t, 8, &a1);
+        s.verify_op(t, 11);
+        s.remove_issuer(t, 0, 4);
+        s.verify_op(t, 11); // a removed issuer's claim must not count
+        s.add_topic(t, 0, 2);
+        s.add_issuer(t, 0, 4, &[1]);
+        s.update_issuer(t, 0, 4, &dup); // refused
+        s.update_issuer(t, 0, 4, &dup[..2]); // [1,1] refused / [2,1] / [1,2] accepted
+        s.allow_key(t, 4, 1, ED25519, 0, 1);
+        s.add_claim(t, 8, &a1);
+        s.verify_op(t, 11);
+        s.update_issuer(t, 0, 4, &[2]);
+        s.verify_op(t, 11);
+        s.remove_issuer(t, 0, 4);
+        s.verify_op(t, 11);
+    }
+
     // (3c) ONE public key as a signing key under TWO scheme numbers, for the same and for different
     // topics; one (key, scheme) is removed: claims under the removed one must be refused, claims under
     // the kept one must still be confirmed. Both removal orders, all three verifiers.
